@@ -505,12 +505,13 @@ def Info.mapField? : Info → Option Info
   | .mapOf e => some e
 
 mutual
-/-- `buildFieldsInfo(tp)`: pointers, slices *and maps* are looked through; a struct gives its children. -/
+/-- `buildFieldsInfo(tp)`: pointers and slices are looked through, a map records its element info as `mapField`
+(its keys are data), a struct gives its children. -/
 def infoOf : Ty → Info
   | .prim _ => .node .nil
   | .ptr t => infoOf t
   | .slice t => infoOf t
-  | .map t => infoOf t
+  | .map t => .mapOf (infoOf t)
   | .struct fs => .node (infoFields fs)
 /-- `buildStructFieldsInfo`: named fields by lower-cased key (a map-typed field records its element info as
 `mapField`), embedded structs flattened. Key conflicts are detected separately (`infoConflict`). -/
@@ -530,6 +531,33 @@ def infoField : Ty → Info
   | .prim _ => .node .nil
   | .slice t => infoOf t
   | .struct fs => .node (infoFields fs)
+end
+
+mutual
+/-- `buildFieldsInfo` as it was before fixes/C17-map-keys-are-data.patch: a map that is not itself a struct field
+(element of a slice or of another map) was looked through like a slice, so its keys were matched against the
+field names of its element type. Kept for the witness theorem `pinned_info_not_case_insensitive`. -/
+def infoOfPinned : Ty → Info
+  | .prim _ => .node .nil
+  | .ptr t => infoOfPinned t
+  | .slice t => infoOfPinned t
+  | .map t => infoOfPinned t
+  | .struct fs => .node (infoFieldsPinned fs)
+def infoFieldsPinned : Fields → IM
+  | .nil => .nil
+  | .cons f t rest =>
+    if f.embedded then
+      match t with
+      | .struct fs => (infoFieldsPinned fs).append (infoFieldsPinned rest)
+      | _ => infoFieldsPinned rest
+    else
+      .cons (lower f.tagKey) (infoFieldPinned t) (infoFieldsPinned rest)
+def infoFieldPinned : Ty → Info
+  | .ptr t => infoFieldPinned t
+  | .map e => .mapOf (infoOfPinned e)
+  | .prim _ => .node .nil
+  | .slice t => infoOfPinned t
+  | .struct fs => .node (infoFieldsPinned fs)
 end
 
 def hasDup : List Str → Bool
@@ -581,12 +609,14 @@ end
 /-! ### the loaders -/
 
 /-- `conf.LoadFromJsonBytes` after `jsonx.Unmarshal(content, &m)` gave the tree `j` (`m map[string]any`). -/
-def loadTree (fs : Fields) (j : J) : R Val :=
+def loadTreeWith (info : Info) (fs : Fields) (j : J) : R Val :=
   if infoConflict (.struct fs) then .error .err else
   match j with
-  | .obj m => (unmarshalStruct true fs (lowerMap (infoOf (.struct fs)) m)).map .struct
+  | .obj m => (unmarshalStruct true fs (lowerMap info m)).map .struct
   | .null => (unmarshalStruct true fs .nil).map .struct
   | _ => .error .err
+
+def loadTree (fs : Fields) (j : J) : R Val := loadTreeWith (infoOf (.struct fs)) fs j
 
 /-- `mapping.UnmarshalJsonBytes` (`var m any`, default unmarshaller: exact keys). -/
 def unmarshalJson (fs : Fields) (j : J) : R Val :=
